@@ -477,78 +477,100 @@ class LAMMPSEngine(EngineBase):
                 cwd=cwd,
                 preexec_fn=os.setsid,
             )
-            # wait for trajectories to appear
-            while not os.path.exists(traj_file):
-                sleep(self.sleep)
-                if exe.poll() is not None:
-                    logger.debug("LAMMPS execution stopped")
-                    break
-
-            # LAMMPS may have finished after last processing the files
-            # or it may have crashed without writing to the files
-            if exe.poll() is None or exe.returncode == 0:
-                traj_reader = ReadAndProcessOnTheFly(
-                    traj_file, lammpstrj_reader
-                )
-                # start reading on the fly as LAMMPS is still running
-                # if it stops, perform one more iteration to read
-                # the remaining content in the files.
-                iterations_after_stop = 0
-                step_nr = 0
-                trajectory: list[np.ndarray] = []
-                box_trajectory: list[np.ndarray] = []
-                while exe.poll() is None or iterations_after_stop <= 1:
-                    # we may still have some data in the trajectory
-                    # so use += here
-                    frames = traj_reader.read_and_process_content()
-                    trajectory += frames[0]
-                    box_trajectory += frames[1]
-                    # loop over the frames that are ready
-                    for frame in range(len(trajectory)):
-                        posvel = trajectory.pop(0)
-                        box = box_trajectory.pop(0)
-                        pos = posvel[:, :3]
-                        vel = posvel[:, 3:]
-                        # shift the box bounds
-                        pos, box = shift_boxbounds(pos, box)
-                        # calculate order, check for crossings, etc
-                        order = self.calculate_order(
-                            system, xyz=pos, vel=vel, box=box
-                        )
-                        msg_file.write(
-                            f'{step_nr} {" ".join([str(j) for j in order])}'
-                        )
-                        snapshot = {
-                            "order": order,
-                            "config": (traj_file, step_nr),
-                            "vel_rev": reverse,
-                        }
-                        phase_point = self.snapshot_to_system(system, snapshot)
-                        status, success, stop, add = self.add_to_path(
-                            path, phase_point, left, right
-                        )
-                        if stop:
-                            # process may have terminated since we last checked
-                            if exe.poll() is None:
-                                logger.debug("Terminating LAMMPS execution")
-                                os.killpg(os.getpgid(exe.pid), signal.SIGTERM)
-                                # wait for process to die, necessary for mpi
-                                exe.wait(timeout=360)
-                            logger.debug(
-                                "LAMMPS propagation ended at %i. Reason: %s",
-                                step_nr,
-                                status,
-                            )
-                            # exit while loop without reading additional data
-                            iterations_after_stop = 2
-                            lammps_was_terminated = True
-                            break
-
-                        step_nr += 1
+            try:
+                # wait for trajectories to appear
+                while not os.path.exists(traj_file):
                     sleep(self.sleep)
-                    # if LAMMPS finished, we run one more loop
-                    if exe.poll() is not None and iterations_after_stop <= 1:
-                        iterations_after_stop += 1
+                    if exe.poll() is not None:
+                        logger.debug("LAMMPS execution stopped")
+                        break
+
+                # LAMMPS may have finished after last processing the files
+                # or it may have crashed without writing to the files
+                if exe.poll() is None or exe.returncode == 0:
+                    traj_reader = ReadAndProcessOnTheFly(
+                        traj_file, lammpstrj_reader
+                    )
+                    # start reading on the fly as LAMMPS is still running
+                    # if it stops, perform one more iteration to read
+                    # the remaining content in the files.
+                    iterations_after_stop = 0
+                    step_nr = 0
+                    trajectory: list[np.ndarray] = []
+                    box_trajectory: list[np.ndarray] = []
+                    while exe.poll() is None or iterations_after_stop <= 1:
+                        # we may still have some data in the trajectory
+                        # so use += here
+                        frames = traj_reader.read_and_process_content()
+                        trajectory += frames[0]
+                        box_trajectory += frames[1]
+                        # loop over the frames that are ready
+                        for frame in range(len(trajectory)):
+                            posvel = trajectory.pop(0)
+                            box = box_trajectory.pop(0)
+                            pos = posvel[:, :3]
+                            vel = posvel[:, 3:]
+                            # shift the box bounds
+                            pos, box = shift_boxbounds(pos, box)
+                            # calculate order, check for crossings, etc
+                            order = self.calculate_order(
+                                system, xyz=pos, vel=vel, box=box
+                            )
+                            msg_file.write(
+                                f"{step_nr} "
+                                f'{" ".join([str(j) for j in order])}'
+                            )
+                            snapshot = {
+                                "order": order,
+                                "config": (traj_file, step_nr),
+                                "vel_rev": reverse,
+                            }
+                            phase_point = self.snapshot_to_system(
+                                system, snapshot
+                            )
+                            status, success, stop, add = self.add_to_path(
+                                path, phase_point, left, right
+                            )
+                            if stop:
+                                # process may have terminated since we last
+                                # checked
+                                if exe.poll() is None:
+                                    logger.debug(
+                                        "Terminating LAMMPS execution"
+                                    )
+                                    os.killpg(
+                                        os.getpgid(exe.pid), signal.SIGTERM
+                                    )
+                                    # wait for process to die, necessary for
+                                    # mpi
+                                    exe.wait(timeout=360)
+                                logger.debug(
+                                    "LAMMPS propagation ended at %i. "
+                                    "Reason: %s",
+                                    step_nr,
+                                    status,
+                                )
+                                # exit while loop without reading additional
+                                # data
+                                iterations_after_stop = 2
+                                lammps_was_terminated = True
+                                break
+
+                            step_nr += 1
+                        sleep(self.sleep)
+                        # if LAMMPS finished, we run one more loop
+                        if (
+                            exe.poll() is not None
+                            and iterations_after_stop <= 1
+                        ):
+                            iterations_after_stop += 1
+            except BaseException:
+                # never leave the program running when an exception ends
+                # the propagation (order function, I/O error, interrupt)
+                if exe.poll() is None:
+                    os.killpg(os.getpgid(exe.pid), signal.SIGTERM)
+                    exe.wait(timeout=360)
+                raise
 
             return_code = exe.returncode
             if return_code != 0 and not lammps_was_terminated:
